@@ -2982,6 +2982,13 @@ class BaseInterpreter(Generic[TContext, TEvent]):
         Args:
             state (StateNode): The state being entered.
         """
+        # 🛑 Nothing is armed once the interpreter has been stopped. A
+        #    macrostep still in flight (an action called `stop()`, or another
+        #    task/thread did) goes on entering states; arming their timers and
+        #    services then leaked them past `stop()`.
+        if self.status == "stopped":
+            return
+
         # 🕒 Schedule `after` timers.
         for delay_ms, transitions in state.after.items():
             # 🏷️ Symbolic delays resolve through MachineLogic.delays.
